@@ -229,3 +229,16 @@ Example conserves_same_scenario :
   total_for 4 9 (contribute 4 (5, 1) [(9, 1)] c) = 1 /\ total_for 4 5 (contribute 4 (5, 1) [(9, 1)] c) = 1
   /\ total_for 4 1 (contribute 4 (5, 1) [(9, 1)] c) = 1.
 Proof. vm_compute. repeat split. Qed.
+
+(* used by the replay of the real caches (vlib/cachetrace.py): the handler contributions that re-enter an eviction send can be
+   applied one by one to the state reached without them *)
+Definition evicts (n : Z) (kv : Z * Z) (c : cst) : bool :=
+  match slots c (slot_of n (fst kv)) with Some (k', _) => negb (k' =? fst kv) | None => false end.
+Lemma contribute_split n kv re c :
+  contribute n kv re c =
+  if evicts n kv c then fold_left (fun c x => contribute_inner n x c) re (contribute n kv [] c) else contribute n kv [] c.
+Proof.
+  destruct kv as (k, v). unfold contribute, evicts. cbn [fst].
+  destruct (slots c (slot_of n k)) as [(k', v')|]; [|reflexivity].
+  destruct (k' =? k); reflexivity.
+Qed.
